@@ -163,6 +163,8 @@ def c11(tier, seed):
     # exhaustion while the capture pipes are made: a diagnostic and an empty replacement; a later substitution works
     for n in (7, 8, 9, 10):
         out.append({'line': 'ulimit -n %d; A=$(echo a | cat); ulimit -n 64; B=$(echo b); echo "[$B]"' % n, 'timeout': 8, 'expect_stdout': '[b]\n', 'area': 'substitution:descriptor-exhaustion:later-substitution-works'})
+    for n in (7, 8):
+        out.append({'line': 'ulimit -n %d; A=$(echo a | cat); B=$(echo b); C=$(echo c); ulimit -n 64; echo "[$B$C]"' % n, 'timeout': 8, 'expect_stdout': '[bc]\n', 'area': 'substitution:descriptor-exhaustion:later-substitution-works'})
     return out
 
 
@@ -470,6 +472,9 @@ def c03(tier, seed):
     for line, exp, rc in (('sleep 0.4 | sh -c "exit 7"; echo "st=$?"', 'st=7\n', 0), ('sleep 0.4 | false && echo AND; echo end', 'end\n', 0), ('sleep 0.4 | false || echo OR', 'OR\n', 0),
                           ('sh -c "sleep 0.4; exit 3" | true && echo AND', 'AND\n', 0), ('sleep 0.3 | sh -c "exit 5"', '', 5)):
         out.append({'line': line, 'expect_stdout': exp, 'expect_rc': rc, 'area': 'list:status-of-a-pipeline-whose-last-stage-ends-first', 'timeout': 10})
+    # a quoted or escaped `&` as the last word is an argument: the pipeline is waited for and its status counts
+    for line, exp, rc in (('./st a 3 "&" && ./st RHS 0; ./st "st=$?" 0', 'a\nst=3\n', 0), ("./st a 0 '&' || ./st RHS 0; ./st b 4 \\&", 'a\nb\n', 4), ('V="&"; sh -c "sleep 0.3; echo first; exit 5" $V; echo "second $?"', 'first\nsecond 5\n', 0)):
+        out.append({'line': line, 'files': {'st': ST}, 'expect_stdout': exp, 'expect_rc': rc, 'area': 'list:quoted-ampersand-as-the-last-word', 'timeout': 10})
     # a list operator behind text that is not ASCII is an operator all the same
     for line, exp, rc in (('echo \u4e2d\u6587 && echo second', '\u4e2d\u6587\nsecond\n', 0), ('true \u4e2d\u6587\u4e2d || echo OR; echo "st=$?"', 'st=0\n', 0), ('false caf\u00e9-cr\u00e8me || echo rescued', 'rescued\n', 0),
                           ('true \u00e9\u00e9\u00e9 && sh -c "exit 9"', '', 9), ('echo \u00e9 | cat', '\u00e9\n', 0), ('echo \u00e9\u00e9 ; echo b', '\u00e9\u00e9\nb\n', 0)):
